@@ -968,6 +968,7 @@ where
         let res = ready!(this.inner.poll(cx));
 
         if let Ok(entry) = res.as_ref()
+            && entry.source() == Source::Outer
             && entry.properties().location() != Location::InMem
             && *this.policy == HybridCachePolicy::WriteOnInsertion
             && this.store.is_enabled()
